@@ -576,6 +576,9 @@ def compare(case, res, replies):
             return (f"op {i} ({op['op']}): impl and model differ in {keys}: impl "
                     + jdump({k: a.get(k) for k in keys})[:300] + " model " + jdump({k: b.get(k) for k in keys})[:300])
         if op["op"] == "run":
+            if b["ids"] != _static_ids(case, op["els"])[0]:
+                return (f"op {i}: Lean resolve gives the cache files {b['ids']}, the Python naming rule "
+                        f"{_static_ids(case, op['els'])[0]}")
             els = _resolved(op, b["ids"])
             flow, inputs, replay = _pipe_flow(finals, op["src"], els)
             if ref != {"vals": flow[0], "exc": flow[1]}:
